@@ -383,7 +383,7 @@ def run(ctx: lib.Ctx) -> None:
                 'instructions: UPDATE (add/remove, four map branches), GET_AND_UPDATE, GET, MEM, SIZE, ITER {CONS}, MAP {..}, '
                 'PUSH of literals (sorted, adjacent swap, duplicate, shuffled); the whole collection is read after every instruction. '
                 'non-trivial = some key is touched by at least two updating instructions.')
-    n_hist = ctx.n(56, 400)
+    n_hist = ctx.n(56, 160)
     max_len = ctx.n(30, 300)
     set_cases, map_cases, meta = [], [], []
     for h in range(n_hist):
